@@ -4,6 +4,7 @@ import (
 	"context"
 	"fmt"
 	"os"
+	"slices"
 	"sync"
 	"time"
 
@@ -293,8 +294,17 @@ func (r *Reader) include(ctx context.Context, node Node) error {
 					graph.EdgeWeight(1),
 				)
 			} else {
-				// If the edge already exists
+				// If the edge already exists (the same Taskfile is included more
+				// than once by this parent): keep the includes in the order of
+				// their declaration, not in the order the goroutines finish
 				edgeData := append(edge.Properties.Data.([]*ast.Include), include)
+				position := map[string]int{}
+				for namespace := range vertex.Taskfile.Includes.All() {
+					position[namespace] = len(position)
+				}
+				slices.SortStableFunc(edgeData, func(a, b *ast.Include) int {
+					return position[a.Namespace] - position[b.Namespace]
+				})
 				err = r.graph.UpdateEdge(
 					node.Location(),
 					includeNode.Location(),
